@@ -270,6 +270,11 @@ func (e *Exec) execInstr(st *State, fr *Frame, in ssa.Instruction) ([]*State, bo
 			return nil, true
 		}
 		if obj := x.Object(); obj != nil {
+			if v, isVar := obj.(*types.Var); !isVar || v.IsField() {
+				// selectors (x.f) are not variables
+				fr.pc++
+				return nil, true
+			}
 			if x.IsAddr {
 				fr.names["&"+obj.Name()] = x.X
 				delete(fr.names, obj.Name())
@@ -1288,6 +1293,9 @@ func (e *Exec) uniqueNames(fn *ssa.Function) map[string]ssa.Value {
 		for _, in := range b.Instrs {
 			d, ok := in.(*ssa.DebugRef)
 			if !ok || d.IsAddr || d.Object() == nil {
+				continue
+			}
+			if v, isVar := d.Object().(*types.Var); !isVar || v.IsField() {
 				continue
 			}
 			if c, isC := d.X.(*ssa.Const); isC && c.Value == nil {
